@@ -68,7 +68,9 @@ Definition cat_eqb (a b : catalog) : bool :=
   forallb (schema_sub b) a && forallb (schema_sub a) b && (zlen a =? zlen b).
 
 (* ------------------------------------------------------------------ what the harness reports *)
-Inductive load_out := LOk (c : catalog) | LErr | LPanic.
+(* LSame (Codec only): the loaded catalog, printed with schemas and tables sorted by name, is
+   character for character the built one printed the same way *)
+Inductive load_out := LOk (c : catalog) | LErr | LPanic | LSame.
 (* Database::open: OOk m = opened, m of the expected tables could not be queried *)
 Inductive open_out := OOk (missing : Z) | OErr | OPanic | OSkip.
 (* names only: (schema, table, index names) *)
@@ -78,12 +80,14 @@ Inductive pout := POk (ts : list tsum) | PErr | PPanic.
 Definition eidx := (str * bool * bool)%type.
 Definition etab := (str * str * list eidx)%type.
 
+Inductive orun := ORun (lo hi : Z) (p : pout) (o : open_out).
+
 Inductive case :=
 (* catalog built through the schema API (schemas / tables in HashMap iteration order);
    sflag: CatalogPersistence::serialize returned 0 Ok / 1 Err / 2 panicked; same: the bytes of
-   serialize equal the file contents after the 128-byte header; file: what save wrote;
-   l: CatalogPersistence::load of that file into Catalog::new() *)
-| Codec (c : catalog) (sflag : Z) (same : bool) (file : list Z) (l : load_out)
+   serialize equal the file contents after the 128-byte header; flen, fhash: length and FNV-1a
+   64 hash of the file save wrote; l: CatalogPersistence::load of that file into Catalog::new() *)
+| Codec (c : catalog) (sflag : Z) (same : bool) (flen fhash : Z) (l : load_out)
 (* CatalogPersistence::deserialize(bytes, &mut Catalog::new()) *)
 | Dec (bs : list Z) (l : load_out)
 (* CatalogPersistence::load of a file with these contents *)
@@ -94,10 +98,19 @@ Inductive case :=
 (* one more DDL statement on a database whose catalog file was oldfile (old: the tables and
    indexes in it that the statement does not itself drop), leaving file; inplace: the catalog
    file kept its inode (rewritten in place) -- then obs n = first n bytes of file in place
-   (n = -1: oldfile); otherwise only n = -1 (old) and n = len (new) are crash states *)
-| Crash (inplace : bool) (old : list tsum) (oldfile file : list Z) (obs : list (Z * pout * open_out)).
+   (n = -1: oldfile); otherwise only n = -1 (old) and n = len (new) are crash states.
+   ORun lo hi p o: every n in lo..hi gave load outcome p and open outcome o *)
+| Crash (inplace : bool) (old : list tsum) (oldfile file : list Z) (obs : list orun).
 
 (* ------------------------------------------------------------------ model side *)
+Definition fnv_step (h b : Z) : Z := Z.land (Z.lxor h b * 1099511628211) 18446744073709551615.
+Definition fnv (bs : list Z) : Z := fold_left fnv_step bs 14695981039346656037.
+Definition codec_loaded (cat : catalog) (l : load_out) : load_out :=
+  match l with LSame => LOk cat | x => x end.
+Fixpoint zrange (n : nat) (lo : Z) : list Z :=
+  match n with O => [] | S m => lo :: zrange m (lo + 1) end.
+Definition expand_obs (obs : list orun) : list (Z * pout * open_out) :=
+  flat_map (fun r => match r with ORun lo hi p o => map (fun n => (n, p, o)) (zrange (Z.to_nat (hi - lo + 1)) lo) end) obs.
 Definition load_eq (r : res catalog) (l : load_out) : bool :=
   match r, l with
   | Ok c, LOk c' => cat_eqb c c'
@@ -139,9 +152,10 @@ Definition pout_eq (r : res catalog) (p : pout) : bool :=
 
 Definition model_agrees (c : case) : bool :=
   match c with
-  | Codec cat sflag same file l =>
+  | Codec cat sflag same flen fhash l =>
       match save_parts cat with
-      | Some (h, b) => (sflag =? 0) && same && zlist_eqb file (h ++ b) && load_eq (load_file file) l
+      | Some (h, b) => (sflag =? 0) && same && (flen =? zlen (h ++ b)) && (fhash =? fnv (h ++ b))
+                       && load_eq (load_file (h ++ b)) (codec_loaded cat l)
       | None => (sflag =? 1)
       end
   | Dec bs l => load_eq (deserialize bs base_catalog) l
@@ -149,7 +163,7 @@ Definition model_agrees (c : case) : bool :=
   | Ddl _ _ file l o => load_eq (load_file file) l && open_agrees (load_file file) o
   | Crash inplace old oldfile file obs =>
       forallb (fun ob => match ob with (n, p, o) =>
-                 let r := crash_load inplace oldfile file n in pout_eq r p && open_agrees r o end) obs
+                 let r := crash_load inplace oldfile file n in pout_eq r p && open_agrees r o end) (expand_obs obs)
   end.
 
 (* ------------------------------------------------------------------ the property's oracle *)
@@ -174,10 +188,10 @@ Definition obs_ok (old : list tsum) (ob : Z * pout * open_out) : bool :=
 
 Definition spec_ok (c : case) : bool :=
   match c with
-  | Codec cat sflag same file l =>
+  | Codec cat sflag same flen fhash l =>
       (* every catalog within the field widths of the format must come back identical *)
       if wf_catalog cat then
-        match l with LOk c' => (sflag =? 0) && cat_eqb cat c' | _ => false end
+        match codec_loaded cat l with LOk c' => (sflag =? 0) && cat_eqb cat c' | _ => false end
       else true
   | Dec _ _ | LoadF _ _ => true             (* malformed input is C23's subject; here only model vs code *)
   | Ddl schemas expect file l o =>
@@ -186,7 +200,7 @@ Definition spec_ok (c : case) : bool :=
                          && forallb (fun s => match find_schema c' s with Some _ => true | None => false end) schemas
       | _, _ => false
       end
-  | Crash inplace old oldfile file obs => forallb (obs_ok old) obs
+  | Crash inplace old oldfile file obs => forallb (obs_ok old) (expand_obs obs)
   end.
 
 (* ------------------------------------------------------------------ known findings *)
@@ -197,7 +211,7 @@ Definition etab_plain (e : etab) : bool :=
   forallb (fun i : eidx => negb (snd (fst i)) && negb (snd i)) (snd e).
 Definition known_class (c : case) : Z :=
   match c with
-  | Codec cat _ _ _ _ => if wf_catalog cat then codec_class cat else 0
+  | Codec cat _ _ _ _ _ => if wf_catalog cat then codec_class cat else 0
   | Dec _ _ | LoadF _ _ => 0
   | Ddl schemas expect _ _ _ =>
       match schemas with _ :: _ => 1 | [] => if forallb etab_plain expect then 0 else 2 end
@@ -205,7 +219,7 @@ Definition known_class (c : case) : Z :=
       (* only if every observation that fails the oracle is a crash point inside the rewrite *)
       let h := firstn 128 file in
       let b := skipn 128 file in
-      let bad := filter (fun ob => negb (obs_ok old ob)) obs in
+      let bad := filter (fun ob => negb (obs_ok old ob)) (expand_obs obs) in
       match bad with
       | [] => 0
       | _ => if inplace && forallb (fun ob => match ob with (n, _, _) =>
